@@ -27,7 +27,7 @@ RULE = (
 BUDGET = {"quick": 600, "thorough": 4000}
 ASSUMPTIONS = [
     "fill values not representable in the result dtype family are not generated (negative fill for unsigned data, 1e6 for 8/16-bit min/max)",
-    "arg-reductions get integer fills only",
+    "arg-reductions get integer fills or NaN (NaN widens the index result to float64)",
 ]
 
 FUNCS = [
@@ -104,7 +104,7 @@ def cases(draw, tier="quick"):
     if dt in ("|i1", "|u1", "|b1"):
         fills = [f for f in fills if f != 1000000]
     if func in ARG_FUNCS:
-        fills = [0, -1, 7]
+        fills = [0, -1, 7, "nan"]
     case["fill_value"] = draw(st.sampled_from(fills))
     case["engine"] = draw(st.sampled_from(["numpy", "numpy", "flox", "numbagg", None, None]))
     # chunked plans
